@@ -123,7 +123,7 @@ Lemma read_nowait_progress n s : Inv s -> takes n -> snd (fst (read_nowait n s))
 Proof.
   intros HI Hn Hd Hne. unfold read_nowait in *. destruct (n =? -1) eqn:E.
   - destruct (buf s) as [|f r] eqn:Eb; [cbn in Hd; congruence|].
-    destruct (drain_ok (length (f :: r)) s) as [_ B]; [rewrite Eb; lia|]. cbn [length] in B. lia.
+    destruct (drain_ok (length (f :: r)) s) as [_ B]; [rewrite Eb; lia|]. cbn [length] in *. lia.
   - assert (H0 : 0 <= n) by (destruct Hn; lia). clear Hn. revert Hd Hne.
     unfold fuel_of. rewrite take_n_eq. destruct (buf s) as [|f r] eqn:Eb; [cbn; congruence|].
     pose proof (consume_len n f r s H0) as Hl. rewrite <- rnc_snd in Hl.
@@ -133,4 +133,154 @@ Proof.
     assert (Hne' : n - len d <> 0) by lia. specialize (Hm Hne').
     destruct (take_n_ok (length (buf s) + length (pend s)) (n - len d) s1) as [_ B]; [lia|unfold M in *; rewrite Eb in *; cbn [length] in *; lia|].
     rewrite Eb in B. destruct (take_n _ (n - len d) s1) as [[s2 d2] e]. cbn [fst snd] in *. intros _ _. unfold M in *. rewrite Eb in *. cbn [length] in *. lia.
+Qed.
+
+(* ---- no operation ever reports ExFuel / ExIndex ---------------------------------------------- *)
+
+Definition clean (r : result) : Prop :=
+  match r with RRaise ExFuel _ => False | RRaise ExIndex _ => False | _ => True end.
+Definition wf_k (k : cont) : Prop :=
+  match k with KRead n => n = -1 \/ 0 <= n | KReadExactly n _ => 1 <= n | _ => True end.
+Definition okout (o : outcome) : Prop := match o with Done r => clean r | Block k => wf_k k end.
+Definition clean_obs (b : obs) : Prop := match b with ObDone r => clean r | _ => True end.
+
+Lemma clean_finish e ok d : e = SOk -> clean ok -> clean (finish e ok d).
+Proof. intros -> H. exact H. Qed.
+
+Lemma M_marks n s : M (set_chunk_size n s) = M s.
+Proof. unfold set_chunk_size. destruct (chunk_size_raises _ _); reflexivity. Qed.
+
+Lemma k_read_ok n s : n = -1 \/ 0 <= n -> okout (snd (k_read n s)).
+Proof.
+  intros Hn. unfold k_read. destruct (need_wait s); [exact Hn|].
+  pose proof (read_nowait_ok n s Hn) as [A _]. destruct (read_nowait n s) as [[s1 d] e]. cbn [snd] in *.
+  apply clean_finish; [exact A|exact I].
+Qed.
+
+Lemma k_readall_ok fuel : forall acc s, ICP s -> (M s < fuel)%nat -> okout (snd (k_readall fuel acc s)).
+Proof.
+  induction fuel as [|fuel IH]; intros acc s H Hf; [lia|]. rewrite k_readall_eq.
+  destruct (need_wait s); [exact I|].
+  pose proof (read_nowait_ok (-1) s (or_introl eq_refl)) as [A _].
+  pose proof (read_nowait_progress (-1) s (proj1 H) (or_introl eq_refl)) as Hp.
+  pose proof (ICP_read_nowait (-1) s H) as H1.
+  destruct (read_nowait (-1) s) as [[s1 d] e]. cbn [fst snd] in *. subst e.
+  destruct d as [|x d]; [exact I|]. destruct (exc s1); [exact I|].
+  apply IH; [exact H1|]. assert (S (M s1) <= M s)%nat; [|lia].
+  apply Hp; [discriminate|]. pose proof (len_nonneg (x :: d)). lia.
+Qed.
+
+Lemma k_until_ok fuel : forall sep m acc s, ICP s -> (M s < fuel)%nat -> okout (snd (k_until fuel sep m acc s)).
+Proof.
+  induction fuel as [|fuel IH]; intros sep m acc s H Hf; [lia|]. rewrite k_until_eq.
+  destruct (buf s) as [|f r] eqn:Eb; [destruct (eof s); exact I|].
+  destruct (find_sub sep f).
+  - destruct (rnc _ f r s). cbv zeta. destruct (line_too_long _ _); exact I.
+  - pose proof (rnc_measure (-1) f r s (or_intror eq_refl) Eb) as Hm.
+    pose proof (ICP_rnc (-1) f r s H Eb) as H1.
+    destruct (rnc (-1) f r s) as [s1 d]. cbn [fst snd] in *. cbv zeta.
+    destruct (line_too_long _ _); [exact I|]. apply IH; [exact H1|].
+    assert (S (M s1) <= M s)%nat; [|lia]. apply Hm. pose proof (len_nonneg d). lia.
+Qed.
+
+Lemma k_exactly_ok fuel : forall n acc s, ICP s -> 1 <= n -> (M s < fuel)%nat -> okout (snd (k_exactly fuel n acc s)).
+Proof.
+  induction fuel as [|fuel IH]; intros n acc s H Hn Hf; [lia|]. rewrite k_exactly_eq.
+  destruct (need_wait s); [exact Hn|].
+  assert (Hn0 : 0 <= n) by lia.
+  pose proof (read_nowait_ok n s (or_intror Hn0)) as [A _].
+  pose proof (read_nowait_progress n s (proj1 H) (or_intror Hn)) as Hp.
+  pose proof (ICP_read_nowait n s H) as H1.
+  destruct (read_nowait n s) as [[s1 d] e]. cbn [fst snd] in *. subst e.
+  destruct d as [|x d]; [exact I|]. cbv zeta.
+  destruct (n - len (x :: d) <=? 0) eqn:E0; [exact I|]. destruct (exc s1); [exact I|].
+  apply IH; [apply ICP_marks; exact H1|lia|]. rewrite M_marks.
+  assert (S (M s1) <= M s)%nat; [|lia]. apply Hp; [discriminate|lia].
+Qed.
+
+Lemma k_readchunk_ok s : ICP s -> okout (snd (k_readchunk s)).
+Proof.
+  intros H. unfold k_readchunk. destruct (exc s); [exact I|].
+  destruct (splits s) as [l|] eqn:El.
+  2: { destruct (buf s) as [|f r]; [destruct (eof s); exact I|]. destruct (rnc (-1) f r s). exact I. }
+  destruct (pop_splits (cursor s) l) as [found l'] eqn:Ep.
+  destruct found as [p|].
+  - destruct (pop_splits_In _ _ _ _ Ep) as [_ Hpc].
+    destruct (readchunk_at p (cursor s)) eqn:Ea; [exact I|]. unfold readchunk_at in Ea.
+    assert (Hn0 : 0 <= p - cursor s) by lia.
+    pose proof (read_nowait_ok (p - cursor s) (set_splits s (Some l')) (or_intror Hn0)) as [A _].
+    destruct (read_nowait (p - cursor s) (set_splits s (Some l'))) as [[s1 d] e]. cbn [snd] in *.
+    apply clean_finish; [exact A|exact I].
+  - destruct (buf (set_splits s (Some l'))) as [|f r]; [destruct (eof _); exact I|].
+    destruct (rnc (-1) f r _). exact I.
+Qed.
+
+Lemma fuel_of_gt s : (M s < fuel_of s)%nat /\ (M s < fuel_all s)%nat.
+Proof. unfold fuel_all, fuel_of, M. lia. Qed.
+
+Lemma start_ok c s : ICP s -> okout (snd (start c s)).
+Proof.
+  intros H. destruct c; cbn [start]; unfold raise_exc.
+  - destruct (exc s); [exact I|]. destruct (n =? 0); [exact I|]. destruct (n <? 0) eqn:E.
+    + apply k_readall_ok; [apply ICP_marks; exact H|apply fuel_of_gt].
+    + apply k_read_ok. lia.
+  - destruct (exc s); [exact I|]. apply k_read_ok. left; reflexivity.
+  - destruct sep; [exact I|]. destruct (exc s); [exact I|]. apply k_until_ok; [exact H|apply fuel_of_gt].
+  - destruct (exc s); [exact I|]. destruct (n <=? 0) eqn:E; [exact I|].
+    apply k_exactly_ok; [apply ICP_marks; exact H|lia|apply fuel_of_gt].
+  - apply k_readchunk_ok. exact H.
+  - cbn [sync_op]. destruct (exc s); [exact I|]. destruct (wt s) eqn:Ew; try exact I.
+    all: destruct (n <? -1) eqn:E; [exact I|].
+    all: assert (Hn : n = -1 \/ 0 <= n) by lia.
+    all: pose proof (read_nowait_ok n s Hn) as [A _]; destruct (read_nowait n s) as [[s1 d0] e0]; cbn [snd] in *.
+    all: apply clean_finish; [exact A|exact I].
+  - exact I.
+  - exact I.
+Qed.
+
+Lemma resume_k_ok k s : ICP s -> wf_k k -> okout (snd (resume_k k s)).
+Proof.
+  intros H Hk. destruct k; cbn [resume_k wf_k] in *.
+  - apply k_read_ok. exact Hk.
+  - apply k_readall_ok; [exact H|apply fuel_of_gt].
+  - apply k_until_ok; [exact H|apply fuel_of_gt].
+  - apply k_exactly_ok; [exact H|exact Hk|apply fuel_of_gt].
+  - apply k_readchunk_ok. exact H.
+Qed.
+
+Definition wf_task (y : sys) : Prop := forall k, task y = Some k -> wf_k k.
+
+Lemma step_clean o y : SysP Inv y -> wf_task y -> clean_obs (snd (step o y)) /\ wf_task (fst (step o y)).
+Proof.
+  intros [HI Ht] Hw.
+  assert (Hfin : forall so, okout (snd so) -> clean_obs (snd (finish_task so)) /\ wf_task (fst (finish_task so))).
+  { intros [s1 o1] Ho. unfold finish_task. destruct o1; cbn [fst snd] in *; split; try exact Ho; try exact I.
+    - intros k E. inversion E.
+    - intros k' E. inversion E; subst. exact Ho. }
+  destruct o; cbn [step]; unfold prod; cbn [fst snd];
+    try (split; [destruct (snd _); exact I|intros k E; apply Hw; exact E]);
+    try (split; [exact I|intros k E; apply Hw; exact E]).
+  - destruct (task y) as [k|] eqn:Et.
+    + destruct c; cbn [fst snd]; try (split; [exact I|exact Hw]).
+      destruct (wt (sst y)); cbn [fst snd]; split; try exact I; try exact Hw. destruct (exc (sst y)); exact I.
+      split; [exact I|]. intros k' E. cbn in E. apply Hw. congruence.
+    + apply Hfin. apply start_ok. split; auto.
+  - destruct (task y) as [k|] eqn:Et; [|split; [exact I|exact Hw]].
+    destruct (wt (sst y)) eqn:Ew; cbn [fst snd]; try (split; [exact I|exact Hw]).
+    + apply Hfin. apply resume_k_ok; [split; [apply Inv_wt; exact HI|reflexivity]|apply Hw; exact Et].
+    + split; [exact I|]. intros k' E. inversion E.
+Qed.
+
+Theorem run_clean limit ops : Forall clean_obs (snd (run ops (init_sys limit))).
+Proof.
+  assert (H : forall ops y, SysP Inv y -> wf_task y -> Forall clean_obs (snd (run ops y))).
+  { clear. induction ops as [|o ops IH]; intros y Hy Hw; [constructor|]. cbn [run].
+    pose proof (step_clean o y Hy Hw) as [A B].
+    pose proof (step_SysP Inv Inv_feed Inv_begin Inv_end Inv_eof Inv_exc Inv_pend Inv_consume_resume Inv_marks
+                  (fun s H _ _ _ => Inv_wt s Waiting H) (fun s H => Inv_wt s NoTask H) Inv_pop Inv_unread o y Hy) as Hy1.
+    destruct (step o y) as [y1 b]. cbn [fst snd] in *. specialize (IH y1 Hy1 B).
+    destruct (run ops y1) as [y2 bs]. cbn [snd] in *. constructor; assumption. }
+  apply H.
+  - split; [apply Inv_init|reflexivity].
+  - intros k E. inversion E.
 Qed.
